@@ -313,3 +313,46 @@ class Linters:
             for v in vals:
                 out.setdefault(v if isinstance(v, str) else "?", []).append(sk)
         return out
+
+
+def leaf_exprs(L: "Linters", fqual: str, expr: ast.expr, depth: int = 4, _seen: set | None = None) -> list[tuple[str, ast.expr]]:
+    """Expressions that can flow into `expr` (evaluated in fqual): follows parameters to call-site arguments,
+    single local assignments, IfExp/BoolOp-or branches.  Returns [(function, leaf expression)]."""
+    _seen = _seen if _seen is not None else set()
+    f = L.func_of(fqual)
+    if f is None or depth < 0:
+        return [(fqual, expr)]
+    key = (fqual, ast.dump(expr))
+    if key in _seen:
+        return []
+    _seen.add(key)
+    if isinstance(expr, ast.IfExp):
+        return leaf_exprs(L, fqual, expr.body, depth, _seen) + leaf_exprs(L, fqual, expr.orelse, depth, _seen)
+    if isinstance(expr, ast.Name):
+        a = f.node.args
+        pnames = [x.arg for x in a.posonlyargs + a.args + a.kwonlyargs]
+        stores = [n for n in ast.walk(f.node) if isinstance(n, (ast.Assign, ast.AnnAssign)) and any(isinstance(t, ast.Name) and t.id == expr.id for t in (n.targets if isinstance(n, ast.Assign) else [n.target]))]
+        if expr.id in pnames and not stores:
+            out: list[tuple[str, ast.expr]] = []
+            sites = L.arg_exprs(fqual, expr.id)
+            if not sites:
+                return [(fqual, expr)]
+            for s, call, e in sites:
+                if e is None:
+                    d = L.param_default(f, expr.id)
+                    if d is not None:
+                        out.append((fqual, d))
+                else:
+                    out.extend(leaf_exprs(L, s["caller"], e, depth - 1, _seen))
+            return out
+        if stores and expr.id not in pnames:
+            out = []
+            for st in stores:
+                if st.value is not None and not isinstance(st.value, ast.Tuple):
+                    # tuple-unpacking targets are not followed
+                    if isinstance(st, ast.Assign) and not all(isinstance(t, ast.Name) for t in st.targets):
+                        out.append((fqual, expr))
+                    else:
+                        out.extend(leaf_exprs(L, fqual, st.value, depth - 1, _seen))
+            return out or [(fqual, expr)]
+    return [(fqual, expr)]
